@@ -47,7 +47,9 @@ def run(ck, F, E):
                     ok_none = True
         ck.require(ok_some, "C07:CAPTURE:break-stores-location", "capture/restore", "breakpoint = Some(location.as_numbered())",
                    "break_at_current_location no longer stores the current numbered location", br.span)
-        ck.require(bool(br.calls_to("Program::set_and_goto_immediate_line")), "C07:CAPTURE:parks-on-immediate", "capture/restore",
+        from lib import immediate_line_emptied_by
+        ck.require(bool(br.calls_to("Program::set_and_goto_immediate_line")) or bool(immediate_line_emptied_by(F, br)),
+                   "C07:CAPTURE:parks-on-immediate", "capture/restore",
                    "the cursor is parked on the empty immediate line", "a break no longer parks execution on the immediate line", br.span)
     co = get_fn(ck, F, "Program::continue_from_breakpoint")
     if co is not None:
@@ -107,7 +109,8 @@ def run(ck, F, E):
         return out
 
     if br is not None:
-        parks = br.calls_to("Program::set_and_goto_immediate_line")
+        from lib import immediate_line_emptied_by
+        parks = br.calls_to("Program::set_and_goto_immediate_line") or immediate_line_emptied_by(F, br)
         ws = bp_writes(br)
         ok = bool(parks) and bool(ws) and all(not _reaches_avoiding(br, 0, p.bb, set(ws)) for p in parks) and \
             not any(br.reaches(p.bb, w) for p in parks for w in ws)
